@@ -132,7 +132,8 @@ ArrayOps(path, m, n) ==
         {Op(path, "add", 0, 0, 0, 0, "", <<>>)}
         \cup {Op(path, "delitem", 0, i, 0, 0, "", <<>>) : i \in Idx(n)}
         \cup {Op(path, "delslice", 0, lo, hi, 0, "", <<>>) : lo \in SliceBounds(n), hi \in SliceBounds(n)}
-        \cup {Op(path, "extendself", 0, 0, 0, 0, "", <<>>)}   \* x.extend(list(x)) : copies of its own elements
+        \cup {Op(path, "extendself", 0, 0, 0, 0, "", <<>>)}   \* x.extend(x) / x.extend(list(x)): copies of its own elements
+        \cup {Op(path, "extendbad", 0, 0, 0, 0, "", <<>>)}    \* extend([own first element if any, an object of another class])
         \cup {Op(path, "extendother", 0, 0, 0, 0, "", <<>>)}  \* extend with the same array of the OTHER message
 
 RECURSIVE OpsAt(_, _, _)
@@ -293,6 +294,9 @@ ArrayOp(m, v, op, other) ==
             IF fits(n + n) THEN {Res("ok", put(s \o s))} ELSE {Res("reject", v)}
       [] op.op = "extendother" ->
             IF fits(n + Len(other.q)) THEN {Res("ok", put(s \o other.q))} ELSE {Res("reject", v)}
+      \* a sequence containing an element of another class is refused as a whole
+      \* (TypeError from copy_from, or the limit check): nothing is appended
+      [] op.op = "extendbad" -> {Res("type", v), Res("reject", v)}
 
 (* ---- applying an operation at a path ------------------------------------- *)
 RECURSIVE ApplyAt(_, _, _, _, _)
